@@ -80,7 +80,11 @@ def _pick(v, lo, hi):
 
 
 class _W:
-    """Real reactor + reference timer model (ids are positions in the lists)."""
+    """Real reactor + reference timer model (ids are positions in the lists).
+
+    The oracle is accumulated in self.ok with the non-short-circuit operators & and | so that it adds
+    one solver query per path instead of one fork per comparison; ms/born/runs are concrete on every path
+    (they follow the real code's own decisions), only times are symbolic."""
 
     def __init__(self, now):
         self.R = _R(now)
@@ -90,7 +94,7 @@ class _W:
         self.born = []      # iteration count when created
         self.runs = []      # times the real callback ran
         self.it = 0
-        self.bad = []
+        self.ok = True
         self.inner = None   # (who, act, tgt, r)
         self.residue = False   # cancelled entries may still sit in the heap
 
@@ -144,7 +148,7 @@ class _W:
         except error.AlreadyCancelled:
             got = 2
         if got != exp:
-            self.bad.append("exc")
+            self.ok = False
         if exp == 0:
             if act == 1:
                 self.ms[tgt] = 2
@@ -158,13 +162,13 @@ class _W:
         now = self.R.now
         self.runs[i] += 1
         if self.ms[i] != 0 or self.born[i] >= self.it:
-            self.bad.append("state")
-        elif not (self.mt[i] <= now):
-            self.bad.append("early")
+            self.ok = False         # cancelled / already run / scheduled during this very iteration
         else:
+            ok = self.mt[i] <= now  # not early
             for j in range(len(self.mt)):
-                if j != i and self.ms[j] == 0 and self.mt[j] < self.mt[i]:
-                    self.bad.append("order")
+                if j != i and self.ms[j] == 0:
+                    ok = ok & (self.mt[i] <= self.mt[j])    # nothing pending is scheduled earlier
+            self.ok = self.ok & ok
         self.ms[i] = 1
         if self.inner is not None and self.inner[0] == i:
             self.modify(self.inner[1], self.inner[2], self.inner[3])
@@ -173,52 +177,55 @@ class _W:
         self.it += 1
         self.R.runUntilCurrent()
         now = self.R.now
+        ok = True
         for j in range(len(self.mt)):
-            if self.ms[j] == 0 and self.born[j] < self.it and self.mt[j] <= now:
-                self.bad.append("missed")
+            if self.ms[j] == 0 and self.born[j] < self.it:
+                ok = ok & (now < self.mt[j])        # a due call was not left behind
+        self.ok = self.ok & ok
 
     # -- observations ------------------------------------------------------------------
     def check(self):
         R = self.R
         nact = 0
+        ok = True
         g = R.getDelayedCalls()
         for j in range(len(self.dc)):
             c = self.dc[j]
             if self.runs[j] != (1 if self.ms[j] == 1 else 0):
-                return False
+                ok = False
             if c.active() != (self.ms[j] == 0):
-                return False
+                ok = False
             if self.ms[j] == 0:
                 nact += 1
-                if c.getTime() != self.mt[j]:
-                    return False
+                ok = ok & (c.getTime() == self.mt[j])
                 if not any(x is c for x in g):
-                    return False
+                    ok = False
         if len(g) != nact:
-            return False
-        return _inv(R)
+            ok = False
+        self.ok = self.ok & ok & _inv(R)
 
     def check_timeout(self):
         R = self.R
         t = R.timeout()
         act = [self.mt[j] for j in range(len(self.mt)) if self.ms[j] == 0]
         if t is None:
-            return not act
+            if act:
+                self.ok = False
+            return
         if not act and not self.residue:
-            return False
-        if t < 0 or t > LONGEST:
-            return False
+            self.ok = False
+            return
+        ok = (0 <= t) & (t <= LONGEST)
         for a in act:
-            if not (t == 0 or t <= a - R.now):
-                return False
-        return True
+            ok = ok & ((t == 0) | (t <= a - R.now))
+        self.ok = self.ok & ok
 
 
 def _inv(R):
     h = R._pendingTimedCalls
+    ok = True
     for p in range(1, len(h)):
-        if not (h[(p - 1) >> 1].time <= h[p].time):
-            return False
+        ok = ok & (h[(p - 1) >> 1].time <= h[p].time)
     allc = h + R._newTimedCalls
     cnt = 0
     for a in range(len(allc)):
@@ -227,12 +234,14 @@ def _inv(R):
             return False
         if x.cancelled:
             cnt += 1
-        elif x.delayed_time < 0:
-            return False
+        else:
+            ok = ok & (x.delayed_time >= 0)
         for b in range(a):
             if allc[b] is x:
                 return False
-    return R._cancellations <= cnt
+    if not (R._cancellations <= cnt):
+        return False
+    return ok
 
 
 def history(t0: float, n: int, d0: float, d1: float, d2: float, d3: float, tm: bool,
@@ -242,6 +251,7 @@ def history(t0: float, n: int, d0: float, d1: float, d2: float, d3: float, tm: b
     pre: 0 <= act <= 4 and 0 <= tgt < n and -1 <= who < n
     pre: -BIG <= t0 <= BIG and -BIG <= r <= BIG and (r >= 0 or act == 3)
     pre: 0 <= a1 <= BIG and 0 <= a2 <= BIG
+    pre: who == -1 or not tm
     post: _
     """
     n = _pick(n, 2, B['n'])
@@ -252,25 +262,23 @@ def history(t0: float, n: int, d0: float, d1: float, d2: float, d3: float, tm: b
     ds = [d0, d1, d2, d3]
     for i in range(n):
         W.call_later(ds[i])
-    ok = W.check()
     if tm:
-        ok = W.check_timeout() and ok
+        W.check_timeout()
     if who == -1:
         W.modify(act, tgt, r)
-        ok = W.check() and ok
     else:
         W.inner = (who, act, tgt, r)
+    W.check()
     W.R.now = W.R.now + a1
     W.iterate()
-    ok = W.check() and ok
-    ok = W.check_timeout() and ok
-    ok = W.check() and ok
+    W.check()
+    W.check_timeout()
     W.R.now = W.R.now + a2
     W.iterate()
+    W.check()
+    W.check_timeout()
     cover()
-    ok = W.check() and ok
-    ok = W.check_timeout() and ok
-    return ok and not W.bad
+    return bool(W.ok)
 
 
 HARNESSES = [
